@@ -59,7 +59,8 @@ def snap_data(d):
     try:
         if isinstance(d, _data.Dense):
             a = d.as_ndarray()
-            return {"type": name, "shape": list(a.shape),
+            return {"type": name, "shape": list(d.shape), "array_shape": list(a.shape),
+                    "strides": list(a.strides), "fortran_flag": bool(d.fortran),
                     "fortran": bool(a.flags.f_contiguous and not a.flags.c_contiguous),
                     "bytes": a.tobytes(order="A").hex()}
         if isinstance(d, _data.CSR):
@@ -280,25 +281,74 @@ def mats(rng, n=2):
     return q.Qobj(H), q.Qobj(m()), q.Qobj(m())
 
 
+class InjectedFailure(Exception):
+    """raised by the time-dependent inputs of a scenario on their k-th evaluation"""
+
+
+# failure injection: every coefficient function / operator function / e_ops
+# callback used by the scenarios counts its evaluations here and raises when
+# the countdown reaches zero
+INJECT = {"countdown": None, "calls": 0}
+
+
+def _tick():
+    INJECT["calls"] += 1
+    c = INJECT["countdown"]
+    if c is not None:
+        c -= 1
+        INJECT["countdown"] = c
+        if c <= 0:
+            INJECT["countdown"] = None
+            raise InjectedFailure("injected failure at evaluation %d" % INJECT["calls"])
+
+
 def f_t(t, w=1.0):
+    _tick()
     return w * t + 0.5
 
 
 def f_E(t, E):
+    _tick()
     return E
 
 
 def f_s(t, s):
+    _tick()
     return 1.0
 
 
 def f_targs(t, args):
+    _tick()
     return args["w"] * t + 0.5
+
+
+def f_sin(t):
+    _tick()
+    return np.sin(2 * np.pi * t)
 
 
 def H_func(t, args):
     import qutip as q
+    _tick()
     return q.sigmaz() + args["w"] * t * q.sigmax()
+
+
+def H_func_w(t, w=1.0):
+    import qutip as q
+    _tick()
+    return q.sigmaz() + w * t * q.sigmax()
+
+
+def L_func_w(t, w=1.0):
+    import qutip as q
+    _tick()
+    return q.liouvillian(q.sigmaz() + w * t * q.sigmax())
+
+
+def e_cb(t, state):
+    """e_ops callback"""
+    _tick()
+    return float(abs(state.norm()))
 
 
 def make_H(form, dtype, sup, rng):
@@ -321,9 +371,8 @@ def make_H(form, dtype, sup, rng):
         return q.QobjEvo([H0, [H1, np.array([0.5, 1.0, 1.5])]], tlist=np.array([0.0, 0.5, 1.0]))
     if form == "func":
         if sup:
-            return q.QobjEvo(lambda t, w=1.0: q.liouvillian(q.sigmaz() + w * t * q.sigmax()),
-                             args={"w": 1.0})
-        return q.QobjEvo(lambda t, w=1.0: q.sigmaz() + w * t * q.sigmax(), args={"w": 1.0})
+            return q.QobjEvo(L_func_w, args={"w": 1.0})
+        return q.QobjEvo(H_func_w, args={"w": 1.0})
     raise ValueError(form)
 
 
@@ -335,16 +384,25 @@ def make_state(kind, order):
     if order == "csr":
         return st.to("CSR")
     arr = st.full()
-    arr = np.asfortranarray(arr) if order == "F" else np.ascontiguousarray(arr)
+    if order == "Fv":                       # Fortran-ordered view of a larger buffer
+        big = np.asfortranarray(np.zeros((arr.shape[0], arr.shape[1] + 2), dtype=complex))
+        big[:, :arr.shape[1]] = arr
+        arr = big[:, :arr.shape[1]]
+    elif order == "Cv":                     # C-ordered view of a larger buffer
+        big = np.zeros((arr.shape[0] + 2, arr.shape[1]), dtype=complex)
+        big[:arr.shape[0], :] = arr
+        arr = big[:arr.shape[0], :]
+    else:
+        arr = np.asfortranarray(arr) if order == "F" else np.ascontiguousarray(arr)
     return q.Qobj(_data.Dense(arr, copy=False), dims=st.dims, copy=False)
 
 
 # ==================================================================== scenarios
 class Scenario:
     def __init__(self, name, site, build, call, repeat=True, compare=True, exact=None,
-                 perturb=True):
+                 perturb=True, inject=True):
         self.name, self.site, self.build, self.call = name, site, build, call
-        self.repeat, self.compare, self.perturb = repeat, compare, perturb
+        self.repeat, self.compare, self.perturb, self.inject = repeat, compare, perturb, inject
         fam = name.split(":")[0]
         # exact repeat-call equality where every operation is exact; solver
         # output is compared with a tolerance (validation, not an obligation)
@@ -458,9 +516,9 @@ def scenarios(rng, quick):
             H = make_H(form, dtype, sup, rng)
             H = H if isinstance(H, q.QobjEvo) else q.QobjEvo(H)
             st = make_state("dm" if sup else kind, order)
-            if sup:
+            if sup and kind == "ket":       # operator-ket; kind == "dm": the matrix itself
                 st = q.operator_to_vector(st)
-                if order == "F":
+                if order in ("F", "Fv"):
                     st = q.Qobj(_data.Dense(np.asfortranarray(st.full()), copy=False),
                                 dims=st.dims, copy=False)
             return {"H": H, "state": st, "args": {"w": 2.0}}
@@ -475,16 +533,45 @@ def scenarios(rng, quick):
     forms = ["evo", "func", "array", "evo1"]
     for form in forms:
         for sup in (False, True):
-            for order in ("C", "F", "csr"):
-                kinds = ["ket"] if sup else ["ket", "dm"]
+            for order in ("C", "F", "csr", "Fv", "Cv"):
+                kinds = ["ket", "dm"]
                 for kind in kinds:
                     ops = list(EV) if not quick else rng.sample(list(EV), 3)
+                    if kind == "dm" and order in ("F", "Fv"):
+                        ops = sorted(set(ops) | {"expect", "expect_data"})
                     for op in ops:
-                        if sup and op == "expect":
-                            continue
                         dt = dtypes[rng.randrange(3)]
                         add("eval:%s:%s:%s:%s:%s:%s" % (op, form, "super" if sup else "oper", kind, order, dt),
                             "qobjevo:" + op, b_eval(form, dt, sup, kind, order), EV[op])
+
+    # ---- calls that fail on a mismatching second operand: arguments must be
+    #      exactly as before (shape, memory order, strides included)
+    def b_mis(order, sup):
+        def build():
+            H = make_H("evo", "CSR", sup, rng)
+            H = H if isinstance(H, q.QobjEvo) else q.QobjEvo(H)
+            good = make_state("dm", order)
+            bad3 = q.Qobj(_data.Dense(np.asfortranarray(np.eye(3, dtype=complex)) if order.startswith("F")
+                                      else np.eye(3, dtype=complex), copy=False), copy=False)
+            return {"H": H, "state": good, "bad": bad3, "X": q.qeye(3)}
+        return build
+    MIS = {
+        "expect_data": lambda i: i["H"].expect_data(0.5, i["bad"].data),
+        "matmul_data": lambda i: i["H"].matmul_data(0.5, i["bad"].data),
+        "expect": lambda i: i["H"].expect(0.5, i["bad"]),
+        "matmul": lambda i: i["H"].matmul(0.5, i["bad"]),
+        "qobj-matmul": lambda i: i["state"] @ i["bad"],
+        "evo-matmul": lambda i: i["H"] @ i["X"],
+        "evo-iadd": lambda i: i["H"].copy().__iadd__(i["X"]),
+        "qobj-expect": lambda i: q.expect(i["X"], i["state"]),
+        "mesolve": lambda i: q.mesolve(i["H"], i["bad"], tl, c_ops=[i["X"]], options=dict(OPT)),
+        "liouvillian": lambda i: q.liouvillian(i["state"], [i["X"]]),
+    }
+    for order in ("C", "F", "Fv"):
+        for sup in (False, True):
+            for nm, fn in MIS.items():
+                add("mismatch:%s:%s:%s" % (nm, "super" if sup else "oper", order),
+                    "mismatch:" + nm, b_mis(order, sup), fn, compare=False)
 
     # ---- coefficients
     def b_coeff():
@@ -536,7 +623,7 @@ def scenarios(rng, quick):
             c_ops = [q.sigmam().to(dtype), q.QobjEvo([[q.sigmaz(), f_t]])] if with_c else []
             return {"H": H, "state": make_state(kind, order), "tlist": list(tl),
                     "tlist_np": np.array(tl), "c_ops": c_ops,
-                    "e_ops": [q.sigmaz(), q.QobjEvo([[q.sigmax(), f_t]])],
+                    "e_ops": [q.sigmaz(), q.QobjEvo([[q.sigmax(), f_t]]), e_cb],
                     "args": {"w": 2.0}, "options": dict(OPT)}
         return build
 
@@ -742,7 +829,7 @@ def scenarios(rng, quick):
                                 options=i["options"]), ("H",))
 
     def _fH(i):
-        return [i["H"], [i["a"] + i["b"], lambda t: np.sin(2 * np.pi * t)]]
+        return [i["H"], [i["a"] + i["b"], f_sin]]
     API["fsesolve"] = ("qutip/solver/floquet.py:fsesolve",
                        lambda i: q.fsesolve(_fH(i), i["psi0"], i["tlist"], T=1.0,
                                             e_ops=[i["a"] + i["b"]]), ("H",))
@@ -887,11 +974,13 @@ def run_scenario(sc):
     findings = []
     err = None
     res1 = res2 = raw1 = raw2 = None
+    INJECT["countdown"], INJECT["calls"] = None, 0
     try:
         raw1 = sc.call(inputs)
         res1 = snap(raw1)
     except Exception as e:
         err = "%s: %s" % (type(e).__name__, str(e)[:200])
+    ncalls = INJECT["calls"]
     mid = {k: snap(v) for k, v in inputs.items()}
     for k in before:
         for p in diff(before[k], mid[k]):
@@ -932,6 +1021,31 @@ def run_scenario(sc):
             same = strip_times(res1) == strip_times(res2)
         else:
             same = numclose(raw1, raw2)
+    # failure injection: the same call, failing part-way (the k-th evaluation of
+    # a coefficient / operator function / e_ops callback raises); whatever the
+    # library had changed temporarily must have been restored
+    if sc.inject and ncalls:
+        for k in sorted({1, max(1, ncalls // 2), ncalls}):
+            inputs2 = sc.build()
+            b2 = {kk: snap(v) for kk, v in inputs2.items()}
+            INJECT["countdown"], INJECT["calls"] = k, 0
+            how = "completed"
+            try:
+                sc.call(inputs2)
+            except InjectedFailure:
+                how = "InjectedFailure"
+            except BaseException as e:           # noqa
+                how = type(e).__name__
+            finally:
+                INJECT["countdown"] = None
+            a2 = {kk: snap(v) for kk, v in inputs2.items()}
+            for kk in b2:
+                for p in diff(b2[kk], a2[kk]):
+                    rec = (kk, p, "call-that-fails-part-way (evaluation %d of %d raises; %s)"
+                           % (k, ncalls, how))
+                    if not any(f[0] == kk and f[1] == p for f in findings):
+                        findings.append(rec)
+                        before.setdefault(kk, b2[kk])
     return findings, err, same, before
 
 
@@ -1473,6 +1587,31 @@ def probes():
         [] if isinstance(_data.expect(q.sigmaz().data, make_state("dm", "C").data), complex)
         else ["_data.expect does not return a Python complex"])
 
+    def _reshape():
+        from qutip.core.data.reshape import column_stack_dense, column_unstack_dense
+        bad = []
+        F = _data.Dense(np.asfortranarray(np.arange(6, dtype=complex).reshape(2, 3)), copy=False)
+        r = column_stack_dense(F, inplace=True)
+        if r is not F or F.shape != (6, 1) or not F.fortran:
+            bad.append("column_stack_dense(F, inplace=True) is not an in-place rewrite of shape")
+        r2 = column_unstack_dense(F, 2, inplace=True)
+        if r2 is not F or F.shape != (2, 3) or not F.fortran:
+            bad.append("column_unstack_dense(F, nrow, inplace=True) does not restore the shape")
+        K = _data.Dense(np.asfortranarray(np.arange(3, dtype=complex).reshape(3, 1)), copy=False)
+        column_unstack_dense(K, 3, inplace=True)       # a column that was never stacked
+        if K.shape != (3, 1):
+            bad.append("column_unstack_dense on an unstacked column changes its shape")
+        Cc = _data.Dense(np.arange(6, dtype=complex).reshape(2, 3), copy=False)
+        s0 = snap_data(Cc)
+        r3 = column_stack_dense(Cc, inplace=True)
+        if r3 is Cc or snap_data(Cc) != s0:
+            bad.append("column_stack_dense on a C-ordered matrix touched its argument")
+        return bad
+    P["reshape_kernels"] = _reshape
+    P["matmul_data_pure"] = lambda: check(
+        lambda h, d: h.matmul_data(0.5, d),
+        [evo(), _data.Dense(np.asfortranarray(np.eye(2, dtype=complex)), copy=False)], name="matmul_data")
+
     # mutating operations touch only the receiver, never the object it was copied from
     P["isolation"] = lambda: (
         isolated(evo, lambda c: c.__iadd__(B0), "__iadd__") +
@@ -1724,6 +1863,59 @@ def write_obligations(ctx, items, res):
     return status, ok, out
 
 
+def fin_obligations(ctx):
+    """restore-on-every-exit obligations (Model/C04_fin.v) for the functions
+    that write to an argument temporarily"""
+    hdr = ("From Coq Require Import List Bool Arith.\nImport ListNotations.\n"
+           "From QV Require Import Model.C04_fin Proofs.C04_fin.\n")
+    out = {}
+    for name, _, _ in tx.FIN_FUNCS:
+        try:
+            it = tx.translate_fin(name, vlib.REPO)
+        except Exception as e:
+            out[name] = ("untranslated", "%s: %s" % (type(e).__name__, e))
+            continue
+        defn = "Definition %s : fstmt := %s." % (it["ident"], it["term"])
+        vals = vlib.coq_eval_values(
+            "cases_C04_fin_" + TAG, hdr + defn + "\n",
+            ["restored_on_every_exit %d %s" % (it["k"], it["ident"]),
+             "find (fun j => negb (match disp (fst (fexec (mkforc (fun n => Nat.eqb n j) (fun _ => true) "
+             "(repeat true %d)) 80 %s (mkfst [] 0))) with [] => true | _ => false end)) (seq 0 40)"
+             % (it["k"], it["ident"])])
+        ok = vlib.parse_coq_value(vals[0])
+        wit = vlib.parse_coq_value(vals[1])
+        lines = [hdr, defn]
+        if ok is True:
+            lines.append("Lemma ok_%s : restored_on_every_exit %d %s = true.\nProof. vm_compute. reflexivity. Qed."
+                         % (it["ident"], it["k"], it["ident"]))
+            lines.append("Definition thm_%s := restored_on_every_exit_sound %d %s ok_%s."
+                         % (it["ident"], it["k"], it["ident"], it["ident"]))
+            status = ("proved", {"stable_conditions": it["conds"], "tracked": it["tracked"]})
+        else:
+            j = wit[1] if isinstance(wit, tuple) else None
+            lines.append("Lemma rejected_%s : restored_on_every_exit %d %s = false.\nProof. vm_compute. reflexivity. Qed."
+                         % (it["ident"], it["k"], it["ident"]))
+            if j is not None:
+                lines.append(
+                    "Lemma refuted_%s : exists st' r, fexec (mkforc (fun n => Nat.eqb n %d) (fun _ => true) "
+                    "(repeat true %d)) 80 %s (mkfst [] 0) = (st', r) /\\ r <> FOutOfFuel /\\ disp st' <> [].\n"
+                    "Proof. eexists. eexists. split; [vm_compute; reflexivity|]. split; intro H; discriminate H. Qed."
+                    % (it["ident"], j, it["k"], it["ident"]))
+            status = ("refuted" if j is not None else "rejected-no-model-witness",
+                      {"raising_call": j, "stable_conditions": it["conds"]})
+        gen = os.path.join(vlib.COQ, "Gen")
+        fn = "C04_fin_obl_%s" % TAG
+        with open(os.path.join(gen, fn + ".v"), "w") as fh:
+            fh.write("\n".join(lines))
+        okc, log = vlib.coqc_file("Gen/%s.v" % fn)
+        try:
+            open(os.path.join(gen, "C04_fin_obl.v"), "w").write("\n".join(lines))
+        except OSError:
+            pass
+        out[name] = status + (okc, log[-1500:] if not okc else "")
+    return out
+
+
 # functions the unchanged tree is expected to fail at, with the oracle
 # scenarios that must reproduce the defect on the implementation
 REFUTED_REPLAY = {
@@ -1833,7 +2025,7 @@ def _run(ctx):
         ctx.violation("tx:C04:obligations", "coqc", "generated obligations do not check",
                       {"log": out[-3000:]}, found_input=False)
     names = {it["ident"]: it for it in items}
-    used_probes = set(["isolation", "immutable_targets"])
+    used_probes = set(["isolation", "immutable_targets", "reshape_kernels"])
     tx_report = {}
     pending = []          # rejected functions that need an implementation witness
     for iid, (st, info) in status.items():
@@ -1849,6 +2041,25 @@ def _run(ctx):
         else:
             ctx.add_obligation("params_preserved:" + label, False)
             pending.append((it, info))
+    # ---- 2b. restore-on-every-exit obligations (temporary writes to an argument)
+    try:
+        fin = fin_obligations(ctx)
+    except Exception as e:
+        fin = {"*": ("untranslated", "harness: %s" % str(e)[-300:], False, "")}
+    fin_pending = []
+    for name, rec in fin.items():
+        st_, info = rec[0], rec[1]
+        okc = rec[2] if len(rec) > 2 else False
+        label = name + "[temporary writes restored on every exit]"
+        tx_report[label] = st_ if st_ == "proved" else [st_, info]
+        if st_ == "proved":
+            ctx.add_obligation("restored_on_every_exit:" + name, okc)
+        elif st_ == "refuted":
+            ctx.add_obligation("refuted:" + label, okc)
+            fin_pending.append((name, info))
+        else:
+            ctx.add_obligation("restored_on_every_exit:" + name, False)
+            fin_pending.append((name, info))
     ctx.cov["translated_functions"] = tx_report
     ctx.log("translator: %d functions, %d proved, %d refuted/rejected" % (
         len(status), sum(1 for s in status.values() if s[0] == "proved"), len(pending)))
@@ -1990,6 +2201,14 @@ def _run(ctx):
                           " and no oracle scenario shows a modified argument that is not already listed"),
                       {"function": label, "verdict": info, "oracle_replays_of_this_run": fresh[:6],
                        "scenarios_with_findings": anyhit[:8]},
+                      found_input=bool(fresh))
+    for name, info in fin_pending:
+        fresh = [v for v in ctx.violations if "expect" in v or "mismatch" in v]
+        ctx.violation("checker:" + name, "temporary-write-not-restored",
+                      "%s: the verified restore-on-every-exit checker no longer accepts the function "
+                      "(%s)%s" % (name, info, "; concrete inputs: see the oracle violations of this run"
+                                  if fresh else " and no oracle scenario shows an unrestored argument"),
+                      {"function": name, "verdict": info, "oracle_replays_of_this_run": fresh[:6]},
                       found_input=bool(fresh))
     ctx.cov["explanation"] = (
         "Props/C04.v: soundness of the checker for every program, oracle, fuel, heap. Per function "
